@@ -104,6 +104,13 @@ CHECKS = {
             "reflexive/symmetric/transitive/trichotomy laws are checked on the grid; frozen and non-frozen attribute protocols; generic parameterisations compare equal; all "
             "histories of depth <= 3 over setattr/copy/deepcopy/replace(good)/replace(bad) from five start states are checked against a (values, set-record, sharing) model.",
             "The standard library's dataclasses module is the reference for the rule tables; eq=False+order=True is UNSPEC."),
+    'C17': ("exhaustive enumeration of class-hierarchy programs (generated and built as real classes) up to depth 3 plus two-base shapes; symbolic effective-field model + mirror dataclasses hierarchy",
+            "Programs over root kinds {non-generic, Generic[T], Generic[T,U]} x 10 field-type shapes (incl. struct/tuple literals and a generic pane class as field type) x per-level generic "
+            "forms {plain, bind all, forward, swap, partial bind + re-declared Generic, explicit Generic in another order, nested argument} x field actions (add required / defaulted / "
+            "keyword-only, KW_ONLY marker, re-declare with new type or default) x option settings are enumerated (11.8k quick) and built; a symbolic model yields parameters, effective "
+            "field order and substituted types, compared with inspect.signature (structurally), repr, positional binding, acceptance/rejection per substituted type after subscripting "
+            "the leaf, and behavioural inheritance of in_format / rename / allow_extra / kw_only / frozen / custom; ill-formed programs must be refused with TypeError.",
+            "Substituted types compared structurally; the standard library is the second opinion on parameter order; a re-declaration without a value keeps the inherited default (as in dataclasses)."),
     'C18': ("exhaustive enumeration of handler-source subsets x target types x nesting shapes x handler forms x directions on real generated class nests; marking-converter oracle",
             "Each of the five handler sources is a marking converter that multiplies by its own prime on the way in and divides on the way out; all 2^5 source subsets (nearest-class "
             "handlers both own and inherited) x 4 target kinds x 13 nesting shapes (incl. Any-typed container members, nested and inherited fields) x 3 handler forms are built as real "
